@@ -32,7 +32,7 @@ HEADER_ITEMS = [  # (section index line, mnemonic, unit, value, descr)
 ]
 TITLES = {"V": "~Version", "W": "~Well", "C": "~Curve", "P": "~Parameter", "A": "~ASCII"}
 DATA = [["10", "2.5"], ["20", "-9"]]
-KINDS = ["insert", "pad-header", "pad-data", "rewrap", "delimiter"]
+KINDS = ["insert", "insert-1row", "pad-header", "pad-data", "rewrap", "delimiter"]
 BOUNDS = {
     "quick": {"kinds": KINDS, "pad_cap": 2, "header_pad_cap": 1, "comment_cap": 3, "engines": ["numpy", "normal"], "task_budget_s": 900},
     "thorough": {"kinds": KINDS, "pad_cap": 3, "header_pad_cap": 2, "comment_cap": 5, "engines": ["numpy", "normal"], "task_budget_s": 3000},
@@ -42,7 +42,7 @@ ASSUMPTIONS = [
     "one transformation per run (quick), composed with LF/CRLF and final-newline choices; sites, amounts and characters of the transformation are symbolic",
     "genfromtxt is the validated contract stub of C02",
 ]
-WITNESS_TARGETS = ["comment-line-in-data-section", "blank-line-in-header", "tab-padding", "crlf", "wrap-one-value-per-line", "comma-delimited"]
+WITNESS_TARGETS = ["comment-line-in-data-section", "blank-line-in-header", "tab-padding", "crlf", "wrap-one-value-per-line", "comma-delimited", "indented-comment-line"]
 EXCLUSIONS = {}
 
 
@@ -163,10 +163,12 @@ def harness(ns, params):
         if kind == "delimiter":
             dlm = params["dlm"]
             core.witness("comma-delimited", dlm == "COMMA")
+        if kind == "insert-1row":
+            data = [["10", "2.5"]]  # a single depth step
         base = base_lines(wrap, dlm, data)
         lines = list(base)
-        if kind == "insert":
-            # a blank / whitespace-only / comment line before line p (p = len: at the very end)
+        if kind in ("insert", "insert-1row"):
+            # a blank / whitespace-only / (possibly indented) comment line before line p (p = len: at the very end)
             A(z.le(sel.e, 3 * (len(base) + 1) - 1))
             sv = sel.__index__()
             what, p = sv % 3, sv // 3
@@ -180,7 +182,10 @@ def harness(ns, params):
             else:
                 txt = SymStr.fresh("cmt", ccap)
                 A(allc(txt, printable_ascii))
-                ins = SymStr.lift(concat(["#", txt]))
+                ind = SymStr.fresh("indent", pcap)
+                A(allc(ind, blank_or_tab))
+                ins = SymStr.lift(concat([ind, "#", txt]))
+                core.witness("indented-comment-line", ind.truth())
             lines.insert(p, ins)
             inputs["inserted"] = ins
             in_data = p > base.index(TITLES["A"])
@@ -245,7 +250,7 @@ def harness(ns, params):
         terms = [("\r\n" if crlf_c else "\n")] * len(lines)
         if not fnl_c:
             terms[-1] = ""
-        ref = reference((kind, wrap, dlm), base, eng_c)
+        ref = reference((kind if kind != "insert" else "base", wrap, dlm, len(base)), base, eng_c)
         las = ns.las.LASFile()
         try:
             las.read(SymFile(lines, terms), engine=eng_c)
@@ -270,9 +275,11 @@ def replay(i):
         wrap, data = "YES", [["10", "2.5", "3", "4.5"], ["20", "-9", "7", "8.5"]]
     if kind == "delimiter":
         dlm = i["params"]["dlm"]
+    if kind == "insert-1row":
+        data = [["10", "2.5"]]
     base = base_lines(wrap, dlm, data)
     lines = list(base)
-    if kind == "insert":
+    if kind in ("insert", "insert-1row"):
         lines.insert(sel // 3, i["inserted"])
     elif kind == "pad-header":
         it = HEADER_ITEMS[i["params"]["item"]]
@@ -297,7 +304,7 @@ def replay(i):
         lines[start:] = new
     nl = "\r\n" if i["crlf"] else "\n"
     text = nl.join(lines) + (nl if i["final_newline"] else "")
-    ref = reference((kind, wrap, dlm), base, eng)
+    ref = reference((kind if kind != "insert" else "base", wrap, dlm, len(base)), base, eng)
     try:
         las = lasio.read(text, engine=eng)
     except Exception as e:
